@@ -732,6 +732,10 @@ func FullConformant(r *rand.Rand, n int, poolPct int) *Scenario {
 		}
 		if r.IntN(3) == 0 {
 			s.Links[k].Nbf = D(-comfortable[r.IntN(len(comfortable))])
+		} else if r.IntN(5) == 0 {
+			// active since a moment ago: the bound (with its sub-second part) lies before any clock
+			// reading taken after construction
+			s.Links[k].Nbf = D(-time.Duration(r.IntN(400)) * time.Millisecond)
 		}
 		if r.IntN(6) == 0 {
 			s.Links[k].ExpAbs = T(FarFuture[r.IntN(len(FarFuture))])
